@@ -176,6 +176,10 @@ func FetchType(typ reflect.Type, typMap map[string]reflect.Type) {
 		if typ.Elem().Kind() != reflect.Uint8 {
 			// a list type, under its Go name and under its list type name
 			name := TypeName(typ)
+			if old, ok := typMap[name]; ok && old == typ {
+				// already fetched: a self-referential list type (type T []T) must not be walked again
+				return
+			}
 			typMap[name] = typ
 			typMap[formatArrayTypeName(name)] = typ
 		}
@@ -184,6 +188,13 @@ func FetchType(typ reflect.Type, typMap map[string]reflect.Type) {
 	}
 
 	if typ.Kind() == reflect.Map {
+		if typ.Name() != "" {
+			if old, ok := typMap[typ.Name()]; ok && old == typ {
+				// already fetched: a self-referential map type (type M map[string]M) must not be walked again
+				return
+			}
+			typMap[typ.Name()] = typ
+		}
 		FetchType(typ.Key(), typMap)
 		FetchType(typ.Elem(), typMap)
 		return
